@@ -201,8 +201,13 @@ func objectLevel(c *vlib.Ctx, seen map[string]bool) {
 		}
 		scs = q
 	}
+	objOnly := os.Getenv("VERIF_C32_OBJ") // debugging aid: only the object-level drivers whose name contains this
 	for i, sc := range scs {
-		if !c.Mine(uint64(i)) {
+		if objOnly != "" {
+			if !strings.Contains(sc.Name, objOnly) || c.Shard != 0 {
+				continue
+			}
+		} else if !c.Mine(uint64(i)) {
 			continue
 		}
 		sc := sc
@@ -253,6 +258,9 @@ func runC32(c *vlib.Ctx, progs []c32Prog, bound int) {
 	only := os.Getenv("VERIF_C32_ONLY")
 	if only == "" {
 		objectLevel(c, seen)
+	}
+	if os.Getenv("VERIF_C32_OBJ") != "" {
+		return
 	}
 	for i, p := range progs {
 		if only != "" && p.name != only {
